@@ -115,7 +115,8 @@ var variableTime = map[string]bool{
 	"strings.Compare": true, "strings.EqualFold": true, "strings.HasPrefix": true, "strings.HasSuffix": true, "strings.Contains": true, "strings.Index": true,
 	"slices.Equal": true, "slices.Compare": true, "reflect.DeepEqual": true, "strings.EqualFold ": true,
 }
-var constantTime = map[string]bool{"crypto/subtle.ConstantTimeCompare": true, "crypto/hmac.Equal": true}
+var constantTime = map[string]bool{"crypto/subtle.ConstantTimeCompare": true, "crypto/hmac.Equal": true,
+	"crypto/subtle.ConstantTimeByteEq": true, "crypto/subtle.ConstantTimeEq": true}
 
 // functions known to write through an argument: index of destination -> indices of sources (-1 = all other args)
 var outParams = map[string][2]int{
@@ -201,6 +202,11 @@ func (b *builder) instr(fn *ssa.Function, ins ssa.Instruction) {
 		b.edge(b.val(x.X), r)
 		b.edge(b.val(x.Y), r)
 		switch x.Op {
+		case token.XOR:
+			// x ^ y of the two values is how a hand-written constant-time comparison combines them
+			if !isConst(x.X) && !isConst(x.Y) {
+				b.g.Sanitizers = append(b.g.Sanitizers, site{A: b.val(x.X), B: b.val(x.Y), Kind: "xor-fold", Pos: b.pos(x.Pos()), Fn: fn.String()})
+			}
 		case token.EQL, token.NEQ, token.LSS, token.LEQ, token.GTR, token.GEQ:
 			if !isConst(x.X) && !isConst(x.Y) {
 				b.g.Compares = append(b.g.Compares, site{A: b.val(x.X), B: b.val(x.Y), Kind: x.Op.String(), Pos: b.pos(x.Pos()), Fn: fn.String()})
